@@ -92,6 +92,22 @@ Definition sig_eqb (a b : sig) : bool :=
   && subset (s_req a) (s_req b) && subset (s_req b) (s_req a) && Bool.eqb (s_var a) (s_var b) && Bool.eqb (s_kw a) (s_kw b).
 Definition chk_sig (c : sig * sig) : bool := sig_eqb (fst c) (snd c).
 
+(* data-loader batch sizes *)
+Definition oz_eqb (a b : option Z) : bool :=
+  match a, b with None, None => true | Some x, Some y => x =? y | _, _ => false end.
+(* (len(x), batch_size, result of the real check_batch_size: None = raised) *)
+Definition chk_cbs (c : Z * Z * option Z) : bool := let '(n, bs, obs) := c in oz_eqb (check_batch_size n bs) obs.
+(* (n_train, n_val, batch-size spec, observed (train loader batch size, validation loader batch size)) with a
+   given validation-batch-size expression; None = prep_data raised *)
+Definition ozz_eqb (a b : option (Z * option Z)) : bool :=
+  match a, b with
+  | None, None => true
+  | Some (x, v), Some (y, w) => (x =? y) && oz_eqb v w
+  | _, _ => false
+  end.
+Definition chk_loaders (vbs : Z -> Z -> option Z) (c : Z * Z * bs_spec * option (Z * option Z)) : bool :=
+  let '(nt, nv, s, obs) := c in ozz_eqb (data_loaders vbs nt nv s) obs.
+
 (* explanation of a failing binding: the offending keywords / markers *)
 Local Open Scope string_scope.
 Definition explain_bind (s : sig) (c : call) : list string :=
